@@ -97,5 +97,59 @@ static inline long long verif_stoll(const vsmall *s, int base) { return (long lo
 static inline unsigned long verif_stoul(const vsmall *s, int base) { return (unsigned long)verif_stoull_(s, base, ULONG_MAX); }
 static inline int verif_stoi(const vsmall *s, int base) { return (int)verif_stoull_(s, base, (unsigned long long)INT_MAX); }
 
+/* ---- K8: a std sequence container (vector / list / deque / basic_string) seen as its length plus
+ * a ghost record of the last structural operation (kind, position, count), so that contracts can
+ * say "exactly the std operation happened".  Element references are element indices (vref);
+ * element values are opaque ids.  Iterators are (container, index).  Every function carries the
+ * standard's precondition as a class [S] assertion: violating it is undefined behaviour in C++. */
+typedef int velem;
+typedef size_t vref;
+enum vop { VOP_none = 0, VOP_insert, VOP_erase, VOP_push_back, VOP_pop_back, VOP_push_front, VOP_pop_front, VOP_clear, VOP_resize, VOP_reserve };
+typedef struct vseq { size_t size; size_t cap; int op; size_t op_pos; } vseq;
+typedef struct viter { const vseq *c; size_t idx; } viter;
+static inline bool vseq_empty(const vseq *c) { return c->size == 0; }
+static inline size_t vseq_size(const vseq *c) { return c->size; }
+static inline size_t vseq_capacity(const vseq *c) { return c->cap; }
+static inline viter vseq_begin(const vseq *c) { viter i; i.c = c; i.idx = 0; return i; }
+static inline viter vseq_end(const vseq *c) { viter i; i.c = c; i.idx = c->size; return i; }
+static inline long viter_distance(const viter *a, const viter *b) { VERIF_STD_PRE(a->c == b->c, "std::distance: iterators into the same container"); return (long)b->idx - (long)a->idx; }
+static inline void viter_advance(viter *i, long n) { VERIF_STD_PRE(n >= -(long)i->idx && n <= (long)(i->c->size - i->idx), "std::advance stays inside [begin, end]"); i->idx = (size_t)((long)i->idx + n); }
+static inline void viter_inc(viter *i) { VERIF_STD_PRE(i->idx < i->c->size, "++ on an iterator that is not dereferenceable (end)"); i->idx = i->idx + 1; }
+static inline void viter_dec(viter *i) { VERIF_STD_PRE(i->idx > 0, "-- on the begin iterator"); i->idx = i->idx - 1; }
+static inline vref viter_deref(const viter *i) { VERIF_STD_PRE(i->idx < i->c->size, "dereference of an iterator that is not dereferenceable"); return i->idx; }
+static inline bool viter_eq(const viter *a, const viter *b) { return a->idx == b->idx; }
+static inline void vseq_insert(vseq *c, viter pos, velem v) { VERIF_STD_PRE(pos.c == c && pos.idx <= c->size, "insert: iterator in [begin, end] of this container"); VERIF_STD_PRE(c->size < c->cap, "ghost capacity (allocation succeeds)"); c->size = c->size + 1; c->op = VOP_insert; c->op_pos = pos.idx; }
+static inline void vseq_erase(vseq *c, viter pos) { VERIF_STD_PRE(pos.c == c && pos.idx < c->size, "erase: dereferenceable iterator of this container"); c->size = c->size - 1; c->op = VOP_erase; c->op_pos = pos.idx; }
+static inline vref vseq_back(const vseq *c) { VERIF_STD_PRE(c->size > 0, "back() on an empty container"); return c->size - 1; }
+static inline vref vseq_front(const vseq *c) { VERIF_STD_PRE(c->size > 0, "front() on an empty container"); return 0; }
+static inline void vseq_pop_back(vseq *c) { VERIF_STD_PRE(c->size > 0, "pop_back() on an empty container"); c->size = c->size - 1; c->op = VOP_pop_back; c->op_pos = c->size; }
+static inline void vseq_pop_front(vseq *c) { VERIF_STD_PRE(c->size > 0, "pop_front() on an empty container"); c->size = c->size - 1; c->op = VOP_pop_front; c->op_pos = 0; }
+static inline void vseq_push_back(vseq *c, velem v) { VERIF_STD_PRE(c->size < c->cap, "ghost capacity (allocation succeeds)"); c->op = VOP_push_back; c->op_pos = c->size; c->size = c->size + 1; }
+static inline void vseq_push_front(vseq *c, velem v) { VERIF_STD_PRE(c->size < c->cap, "ghost capacity (allocation succeeds)"); c->op = VOP_push_front; c->op_pos = 0; c->size = c->size + 1; }
+/* at(): the checked access - throws std::out_of_range, never undefined */
+static inline vref vseq_at(const vseq *c, size_t i) { if (i >= c->size) { VERIF_THROW(K_out_of_range, "std::vector/string::at: index >= size()"); } return i; }
+/* operator[]: unchecked - index must be in range */
+static inline vref vseq_index(const vseq *c, size_t i) { VERIF_STD_PRE(i < c->size, "operator[]: index < size()"); return i; }
+static inline void vseq_clear(vseq *c) { c->size = 0; c->op = VOP_clear; c->op_pos = 0; }
+static inline void vseq_resize(vseq *c, size_t n) { if (n > c->cap) { VERIF_THROW(K_length_error, "resize beyond max_size / allocation failure"); } c->op = VOP_resize; c->op_pos = n; c->size = n; }
+static inline void vseq_resize_val(vseq *c, size_t n, velem v) { vseq_resize(c, n); }
+static inline void vseq_reserve(vseq *c, size_t n) { if (n > c->cap) { VERIF_THROW(K_length_error, "reserve beyond max_size / allocation failure"); } }
+/* basic_string::substr(pos, len): throws out_of_range if pos > size(); result length min(len, size - pos) */
+static inline size_t vseq_substr(const vseq *s, size_t pos, size_t len) { if (pos > s->size) { VERIF_THROW(K_out_of_range, "basic_string::substr: pos > size()"); } return len < s->size - pos ? len : s->size - pos; }
+/* the find family is total in C++ (any pos is allowed); the result is npos or an index */
+#ifdef VERIF_CBMC
+static inline size_t vseq_find_any(const vseq *s) { size_t verif_r; __CPROVER_assume(verif_r == (size_t)-1 || verif_r < s->size); return verif_r; }
+#else
+static inline size_t vseq_find_any(const vseq *s) { return (size_t)-1; }
+#endif
+#define vseq_find(s, f, pos) vseq_find_any(s)
+#define vseq_rfind(s, f, pos) vseq_find_any(s)
+#define vseq_find_first_of(s, f, pos) vseq_find_any(s)
+#define vseq_find_last_of(s, f, pos) vseq_find_any(s)
+#define vseq_find_first_not_of(s, f, pos) vseq_find_any(s)
+#define vseq_find_last_not_of(s, f, pos) vseq_find_any(s)
+static inline const vseq *vseq_c_str(const vseq *s) { return s; }
+static inline const vseq *vseq_data(const vseq *s) { return s; }
+
 #define VERIF_SWAP(a, b) do { __typeof__(a) verif_t = (a); (a) = (b); (b) = verif_t; } while (0)
 #endif
